@@ -13,6 +13,8 @@ import (
 func init() {
 	commands["c01"] = func(a []string) { runChain("C01") }
 	commands["c02"] = func(a []string) { runChain("C02") }
+	commands["c07"] = func(a []string) { runChain("C07") }
+	commands["c08"] = func(a []string) { runChain("C08") }
 }
 
 func runChain(prop string) {
@@ -27,6 +29,23 @@ func runChain(prop string) {
 	for _, sc := range scs {
 		before := st
 		opt := chainx.Options{Property: prop, K: 1, PerSlot: prop == "C02"}
+		adapt := func(h func(*chainh.Node, uint64) []chainh.HookFinding) chainx.Hook {
+			return func(n *chainh.Node, slot uint64, _ bool) []chainx.Finding {
+				var out []chainx.Finding
+				for _, f := range h(n, slot) {
+					out = append(out, chainx.Finding{Sig: f.Sig, Msg: f.Msg})
+				}
+				return out
+			}
+		}
+		switch prop {
+		case "C07":
+			opt.Hooks = []chainx.Hook{adapt(chainh.CommitteeHook)}
+			opt.OnlyHooks = true
+		case "C08":
+			opt.Hooks = []chainx.Hook{adapt(chainh.ContextHook)}
+			opt.OnlyHooks = true
+		}
 		if run.Tier == "thorough" && (sc.Name == "healthy/all-forks" || prop == "C02") {
 			opt.K = 2
 			if prop == "C01" {
